@@ -1,6 +1,5 @@
 #!/bin/bash
-# mk_worktree.sh <name>: /tmp/wt_<name> = worktree of /repo HEAD in the target state
+# mk_worktree.sh <name>: /tmp/wt_<name> = scratch worktree of /repo HEAD (all planned repairs are committed now)
 set -e
 git -C /repo worktree add --detach /tmp/wt_$1 HEAD >/dev/null 2>&1
-git -C /tmp/wt_$1 apply /verif/notes/target-state.patch
 echo /tmp/wt_$1
